@@ -89,8 +89,11 @@ def octets(rng, maxlen=40):
         n = 0
     elif r < 0.8:
         n = rng.randint(1, maxlen)
-    else:
+    elif r < 0.985:
         n = rng.choice([127, 128, 129, 255, 256, 300])
+    else:
+        n = rng.choice([1000, 2000, 3000])
+        return rng.randbytes(n)
     return bytes(rng.randrange(256) for _ in range(n))
 
 
@@ -161,6 +164,8 @@ def value(rng, kinds=DATA_KINDS, real_binary=True):
         v = ["ipaddr", ".".join(str(rng.choice([0, 1, 127, 128, 255, rng.randrange(256)])) for _ in range(4))]
     elif k == "bool":
         v = ["bool", rng.random() < 0.5]
+        if v[1] and rng.random() < 0.4:
+            opts["tv"] = rng.choice([0x01, 0x02, 0x7F, 0x80, 0xFE])
     elif k == "real":
         v = ["real", real_content(rng, real_binary)]
     else:
@@ -235,7 +240,7 @@ SEC_LEVELS = ["noauth", "md5", "sha", "md5-des", "md5-aes", "sha-des", "sha-aes"
 
 
 def user(rng, level, engine_hex, name=None, ktypes=None):
-    name = name if name is not None else rng.choice(["u1", "admin", "user-with-a-long-name-0123456789", "x"])
+    name = name if name is not None else rng.choice(["u1", "admin", "user-with-a-long-name-0123456789", "x", "u1", "admin", "\u00fcser-\u00f1ame", "u" * 32, "n" * rng.choice([33, 127, 128, 200])])
     u = {"name": name}
     if level == "noauth":
         return u
